@@ -202,6 +202,8 @@ func init() {
 			d := in.term(a[0])
 			return Agg{in.C.Const(64, 0), in.C.Sub(in.clock(), d), Pointer{}}
 		},
+		// outcome of the last crypto/rand.Read (scripted source: both outcomes are explored)
+		"verifRandFailed": func(in *Interp, fn *ssa.Function, a []Value) Value { return in.C.Bool(in.randFailed) },
 		"verifErrIsNil": func(in *Interp, fn *ssa.Function, a []Value) Value {
 			return in.C.Bool(a[0].(Iface).T == nil)
 		},
@@ -236,6 +238,7 @@ func init() {
 			t := a[0].(Agg)
 			return in.C.Sub(in.clock(), in.term(t[1]))
 		},
+		"crypto/rand.Read":    xRandRead,
 		"(*math/big.Int).Mod": xBigMod,
 		"(*math/big.Int).Mul": xBigMul,
 		"bytes.Index":      xBytesIndex,
@@ -798,4 +801,20 @@ func xBigMul(in *Interp, fn *ssa.Function, a []Value) Value {
 	in.storeAt(z.Obj, z.Off, neg, types.Typ[types.Bool])
 	in.storeAt(z.Obj, z.Off+1, Slice{Obj: obj, Off: 0, Len: n, Cap: n, Stride: 1}, types.NewSlice(types.Typ[types.Uint]))
 	return z
+}
+
+
+// crypto/rand.Read as a scripted source: either it fails (0 bytes, an error) or it fills the buffer with
+// arbitrary bytes; both outcomes are explored.
+func xRandRead(in *Interp, fn *ssa.Function, a []Value) Value {
+	b := a[0].(Slice)
+	if in.branch(in.newVar("randread.fails", 0), "crypto/rand.Read outcome") {
+		in.randFailed = true
+		return Tuple{in.C.Const(64, 0), in.errorValue("crypto/rand: scripted failure")}
+	}
+	in.randFailed = false
+	for i := 0; i < b.Len; i++ {
+		in.storeAt(b.Obj, b.Off+i*b.Stride, in.newVar("randread", 8), types.Typ[types.Uint8])
+	}
+	return Tuple{in.C.Const(64, uint64(b.Len)), Iface{}}
 }
